@@ -165,7 +165,9 @@ def stepLine (ds : DS) (toks : List String) : DS × String :=
     | some t, some c, some o, some ty, some vi =>
       let r := cutApi t c o ty vi
       let pr := pasteRaw r.1 r.2 .viBefore 1
-      (ds, s!"{encStr r.1.text} {r.1.cur} {encClip r.2} | " ++
+      let rs := selectionRangesI t c o ty vi
+      (ds, toString rs.length ++ rs.foldl (fun acc p => acc ++ s!" {p.1} {p.2}") "" ++
+        s!" | {encStr r.1.text} {r.1.cur} {encClip r.2} | " ++
         (if pasteOk pr then s!"{encStr pr.1} {pr.2}" else "err"))
     | _, _, _, _, _ => (ds, "bad-op")
   | ["pinit", x] =>
